@@ -117,6 +117,22 @@ func (c c11Config) mapping() (seq.Mapping, string, []string) {
 
 var c11Alphabet = []string{"a", "A", "1", "_", "*", "-", "/", " ", `"`, `\`, "é", "İ", "K", "²", "\xff"}
 
+func c11JSONKind(raw string) string {
+	switch {
+	case raw == "true" || raw == "false":
+		return "boolean"
+	case raw == "null":
+		return "null"
+	case strings.HasPrefix(raw, "["):
+		return "array"
+	case strings.HasPrefix(raw, "{"):
+		return "object"
+	case strings.HasPrefix(raw, `"`):
+		return "string"
+	}
+	return "number"
+}
+
 func jsonString(v string) string {
 	var b strings.Builder
 	b.WriteByte('"')
@@ -533,10 +549,71 @@ func TestVerifC11(t *testing.T) {
 		r.Add("configs", 1)
 	}
 	conf.CaseSensitive = false
+	// ---- several fields in one document, values that are not strings (true / false / null / numbers /
+	// arrays / objects are indexed in their JSON spelling): every ordered pair of values in two keyword fields,
+	// each must be findable by its own spelling (the value of one field must not disturb another field's token)
+	if !replay {
+		m, err := seq.ReadMapping([]byte("mapping-list:\n  - name: \"f\"\n    type: \"keyword\"\n  - name: \"g\"\n    type: \"keyword\"\n  - name: \"h\"\n    type: \"keyword\"\n"))
+		if err != nil {
+			panic(err)
+		}
+		cp := &capture{}
+		ing := bulk.NewIngestor(bulk.IngestorConfig{MaxInflightBulks: 4, AllowedTimeDrift: time.Hour, FutureAllowedTimeDrift: time.Hour,
+			MappingProvider: mp{m}, MaxTokenSize: 72, MaxDocumentSize: 1 << 20, DocsZSTDCompressLevel: 1, MetasZSTDCompressLevel: 1}, cp)
+		vals := []string{`true`, `false`, `null`, `12`, `-0.5`, `"s"`, `[1,2,3]`, `{"x":1}`, `[]`}
+		for _, v1 := range vals {
+			for _, v2 := range vals {
+				for _, v3 := range []string{`"z"`, `true`} {
+					doc := `{"f":` + v1 + `,"g":` + v2 + `,"h":` + v3 + `}`
+					sent := false
+					cp.mu.Lock()
+					cp.metas, cp.docs = nil, nil
+					cp.mu.Unlock()
+					r.Add("evaluations", 1)
+					_, err := ing.ProcessDocuments(context.Background(), time.Now(), func() ([]byte, error) {
+						if sent {
+							return nil, nil
+						}
+						sent = true
+						return []byte(doc), nil
+					})
+					cse := c11Case{Value: doc}
+					if err != nil {
+						r.Violation("multi-field document rejected", cse, fmt.Sprintf("doc %s: %v", doc, err))
+						continue
+					}
+					toks := map[string][]string{}
+					cp.mu.Lock()
+					for _, ms := range cp.metas {
+						for _, md := range ms {
+							for _, t := range md.Tokens {
+								toks[string(t.Key)] = append(toks[string(t.Key)], string(t.Value))
+							}
+						}
+					}
+					cp.mu.Unlock()
+					for fld, raw := range map[string]string{"f": v1, "g": v2, "h": v3} {
+						want := strings.Trim(raw, `"`)
+						found := false
+						for _, tv := range toks[fld] {
+							if tv == want {
+								found = true
+							}
+						}
+						if !found {
+							r.Violation(fmt.Sprintf("multi-field document: field %s with a %s value is not indexed under its own spelling", fld, c11JSONKind(raw)), cse, fmt.Sprintf("doc %s: field %s carries %s, indexed tokens %q", doc, fld, raw, toks))
+						}
+					}
+					r.Distinct("nontrivial", "multi|"+doc)
+				}
+			}
+		}
+		ing.Stop()
+	}
 	r.Sample(c11Case{Config: cfgs[0], Value: "A /é", Query: `f:"a /é"`})
 	ev := r.Get("evaluations")
 	r.Finish(t, "model_checking",
-		fmt.Sprintf("all values of length <=%d over the 15-rune alphabet {a A 1 _ * - / space \" \\ é İ(lower-case has another width) K(Kelvin) ²(number, not digit) \\xff(invalid)} x mapping {keyword,text,path,exists,text+keyword multi-type,object->keyword,object->text+keyword multi-type,nil}, written as YAML and read by the real seq.ReadMapping, x per-type size limit {default,3} x MaxTokenSize {3,72} x case-sensitive x partial indexing; each value indexed by the real Ingestor.ProcessDocuments (metas decoded); derived queries: whole value (keyword), every maximal word within the token limit (text), every leading path (path), _exists_ (all), each in every quoting style (double, single, raw, bare when lexable), parsed by ParseSeqQL and evaluated on the emitted tokens. Over-limit values: skipped => only existence is required; partial => the cut prefix is the subject. distinct_nontrivial = distinct (config, value, query) found", maxLen),
+		fmt.Sprintf("all values of length <=%d over the 15-rune alphabet {a A 1 _ * - / space \" \\ é İ(lower-case has another width) K(Kelvin) ²(number, not digit) \\xff(invalid)} x mapping {keyword,text,path,exists,text+keyword multi-type,object->keyword,object->text+keyword multi-type,nil}, written as YAML and read by the real seq.ReadMapping, x per-type size limit {default,3} x MaxTokenSize {3,72} x case-sensitive x partial indexing; each value indexed by the real Ingestor.ProcessDocuments (metas decoded); derived queries: whole value (keyword), every maximal word within the token limit (text), every leading path (path), _exists_ (all), each in every quoting style (double, single, raw, bare when lexable), parsed by ParseSeqQL and evaluated on the emitted tokens. Documents with three keyword fields carrying every ordered pair of non-string JSON values (true/false/null/numbers/arrays/objects): each field is indexed under its own JSON spelling. Over-limit values: skipped => only existence is required; partial => the cut prefix is the subject. distinct_nontrivial = distinct (config, value, query) found", maxLen),
 		map[string]any{
 			"states":                        int64(len(values)) * r.Get("configs"),
 			"transitions":                   ev,
